@@ -11,6 +11,7 @@ import (
 	"go/constant"
 	"go/token"
 	"go/types"
+	"os"
 	"sort"
 	"strings"
 )
@@ -404,8 +405,10 @@ func (u *U) Lt(a, b *E) *E {
 
 // ltNorm gives comparisons of signed integer sums one normal form: with
 // D = a - b = P - N + k (P, N sums of distinct terms, k a constant),
-//   a < b  <=>  P + k < N            for k >= 0
-//   a < b  <=>  !(N + (-k-1) < P)    for k <  0
+//
+//	a < b  <=>  P + k < N            for k >= 0
+//	a < b  <=>  !(N + (-k-1) < P)    for k <  0
+//
 // so that i <= n-5, i+5 <= n, !(n < i+5) and n-i-5 >= 0 are one atom, and
 // len(h)-len(s)-1 < 0 is !(len(s) < len(h)).  Single-term comparisons keep the
 // constant on the other side (x < c, c < x).  (Lengths and indexes: no
@@ -1247,4 +1250,140 @@ func (u *U) Zero(t types.Type) *E {
 		return u.mk("zero", typeStr(t), t)
 	}
 	return u.mk("nil", "", t)
+}
+
+// Specialize rebuilds e on the paths described by care: every selection (also
+// one nested inside an operation) whose condition is decided by care is
+// replaced by the selected alternative.
+func (u *U) Specialize(e *E, care Ref) *E {
+	memo := map[*E]*E{}
+	var rec func(x *E) *E
+	// conditions: restricted to care, and the operands of their atoms specialised too
+	recB := func(b Ref) Ref {
+		b = u.bdd.Restrict(b, care)
+		for _, v := range u.bdd.Support(b) {
+			at := u.atoms[v]
+			if len(at.Args) == 0 {
+				continue
+			}
+			nat := rec(at)
+			if nat != at {
+				b = u.bdd.Compose(b, v, u.ToBool(nat))
+			}
+		}
+		return b
+	}
+	rec = func(x *E) *E {
+		if x == nil {
+			return nil
+		}
+		if r, ok := memo[x]; ok {
+			return r
+		}
+		var out *E
+		switch x.Op {
+		case "ite":
+			switch {
+			case u.bdd.Implies(care, x.B):
+				out = rec(x.Args[0])
+			case u.bdd.Implies(care, u.bdd.Not(x.B)):
+				out = rec(x.Args[1])
+			default:
+				out = u.ITE(recB(x.B), rec(x.Args[0]), rec(x.Args[1]))
+			}
+		case "bool":
+			out = u.Bool(recB(x.B))
+		default:
+			if len(x.Args) == 0 {
+				out = x
+			} else {
+				args := make([]*E, len(x.Args))
+				changed := false
+				for i, a := range x.Args {
+					args[i] = rec(a)
+					if args[i] != a {
+						changed = true
+					}
+				}
+				if changed {
+					out = u.rebuild(x, args)
+				} else {
+					out = x
+				}
+			}
+		}
+		memo[x] = out
+		return out
+	}
+	return rec(e)
+}
+
+// NestedSelectors lists the atoms that decide selections nested inside
+// operations of e (not the outer if-then-else chain).
+func (u *U) NestedSelectors(e *E) []int {
+	set := map[int]bool{}
+	seen := map[*E]bool{}
+	var rec func(x *E, top bool)
+	rec = func(x *E, top bool) {
+		if x == nil || (seen[x] && !top) {
+			return
+		}
+		seen[x] = true
+		if x.Op == "ite" {
+			if !top {
+				for _, v := range u.bdd.Support(x.B) {
+					set[v] = true
+				}
+			}
+			rec(x.Args[0], top)
+			rec(x.Args[1], top)
+			return
+		}
+		for _, a := range x.Args {
+			rec(a, false)
+		}
+	}
+	rec(e, true)
+	var out []int
+	for v := range set {
+		out = append(out, v)
+	}
+	sort.Ints(out)
+	return out
+}
+
+// CaseSplit returns e specialised for every valuation of its nested selectors
+// (at most 4 of them; otherwise e itself).
+func (u *U) CaseSplit(e *E) []*E {
+	sel := u.NestedSelectors(e)
+	if os.Getenv("UFCHECK_DEBUG_SPLIT") != "" {
+		fmt.Fprintf(os.Stderr, "CaseSplit: %d nested selectors\n", len(sel))
+		for _, v := range sel {
+			fmt.Fprintf(os.Stderr, "   %s\n", clipS(u.Show(u.atoms[v]), 200))
+		}
+	}
+	if len(sel) == 0 || len(sel) > 8 {
+		return []*E{e}
+	}
+	var out []*E
+	seen := map[*E]bool{}
+	for m := 0; m < 1<<len(sel); m++ {
+		care := True
+		for i, v := range sel {
+			lit := u.bdd.Var(v)
+			if m&(1<<i) == 0 {
+				lit = u.bdd.Not(lit)
+			}
+			care = u.bdd.And(care, lit)
+		}
+		if care == False {
+			continue
+		}
+		x := u.Specialize(e, care)
+		if !seen[x] {
+			seen[x] = true
+			out = append(out, x)
+		}
+	}
+	return out
 }
